@@ -175,11 +175,19 @@ def admits_monitor(case, res):
     rc = getattr(builtins, case['raised'])
     declared = [getattr(builtins, n) for d in case['decls'] for n in d]
     want = any(issubclass(rc, d) for d in declared)
-    tag = None
-    if len(case['decls']) > 1: tag = 'stacked_raises'
-    if issubclass(rc, AssertionError): tag = 'assertion_always_declared'
-    elif any(issubclass(AssertionError, d) for d in declared) and not want: tag = 'declared_superclass_of_contract_error'
     names = ['runtime', 'linter(ast)', 'linter(astroid)', 'deal.cases']
+    dev = {n for n, r in zip(names, res) if r != want}
+    # each known finding explains one pattern of deviation, and only that one: whatever is left over is a new violation
+    explained, tag = set(), None
+    if len(case['decls']) > 1 and want and res[0] is False:
+        explained.add('runtime'); tag = tag or 'stacked_raises'                      # C03-F1: the runtime intersects stacked declarations
+        if res[3] is False: explained.add('deal.cases')                               #   ... and deal.cases runs the function through that runtime
+    if issubclass(rc, AssertionError) and not want:
+        explained |= {n for n in ('linter(ast)', 'linter(astroid)') if n in dev}      # C03-F2: the linter never reports AssertionError
+        if dev & {'linter(ast)', 'linter(astroid)'}: tag = tag or 'assertion_always_declared'
+    if any(issubclass(AssertionError, d) for d in declared) and not want and res[3] is True:
+        explained.add('deal.cases'); tag = tag or 'declared_superclass_of_contract_error'   # C03-F3: deal.cases swallows the RaisesContractError
+    if dev - explained: tag = None
     bad = [f'{n}={r}' for n, r in zip(names, res) if r != want]
     if bad:
         return [(f'declaration {case["decls"]} and raised {case["raised"]}: admitted should be {want} everywhere, got {", ".join(bad)}', tag)]
